@@ -32,7 +32,7 @@ func init() {
 	register(&CheckDef{
 		ID:    "C14",
 		Level: "exploration",
-		Rule: "for each corpus grammar x option set {go, -u, -o, -o -u, typescript}: the run with canonical order at every map-range visit is recorded (sites and sizes), then re-run with ONE visit taking each alternative order (all n!-1 permutations for n<=4 quick / n<=6 thorough, beyond that reversal, all rotations and all adjacent transpositions - reported as a cap), with every visit reversed / rotated, and (thorough) with two deviating visits on the smallest grammars; the output file must be byte-identical every time; plus every history of <=2 (quick) / <=3 (thorough) generation calls in one process against single-call outputs; plus 6 runs of the native CLI binary per (grammar, options) (free-running pass, Go's own random order); " +
+		Rule: "for each corpus grammar x option set {go, -u, -o, -o -u, typescript}: the run with canonical order at every map-range visit is recorded (sites and sizes), then re-run with ONE visit taking each alternative order (all n!-1 permutations for n<=4 quick / n<=6 thorough, beyond that reversal, all rotations and all adjacent transpositions - reported as a cap), with every visit reversed / rotated, and (thorough) with two deviating visits on the smallest grammars; the output file must be byte-identical every time; plus every history of <=2 (quick) / <=3 (thorough) generation calls in one process against single-call outputs; plus 6 runs of the native CLI binary per (grammar, options) (free-running pass, Go's own random order), whose output must also equal the in-process output for the same options (flag handling of the CLI); " +
 			"evaluations = generator executions; non-trivial = execution with at least one visit of >=2 keys in non-canonical order; distinct = distinct (grammar, options, schedule)",
 		Assumptions: []string{
 			"map iteration is the only source of nondeterminism in yaccgo (19 range-over-map sites found by go/types in the current tree; no time, randomness, goroutine races affecting output: the lexer goroutine feeds an unbuffered channel consumed in order)",
@@ -298,6 +298,9 @@ func c14Native(w *Worker, corpus []gram.Named) {
 		for _, v := range gen.AllVariants {
 			in := filepath.Join(dir, "in.y")
 			os.WriteFile(in, []byte(gen.Decorate(c.Spec, nil, gen.UseAll).Source(v, "p")), 0o644)
+			// the same options in-process (library call, canonical map order): the CLI must write the same bytes
+			lib, lres := c14Gen(w, gen.Decorate(c.Spec, nil, gen.UseAll).Source(v, "p"), v, ygo.Options{})
+			libSum := sha256.Sum256(lib)
 			var first [32]byte
 			for k := 0; k < 6; k++ {
 				outp := filepath.Join(dir, "out.txt")
@@ -313,6 +316,11 @@ func c14Native(w *Worker, corpus []gram.Named) {
 				w.Count("native_cli_runs", 1)
 				if k == 0 {
 					first = h
+					if lres.OK2() && h != libSum {
+						w.Violate("C14|cli-differs-from-library|"+c.Spec.Key()+" / "+v, fmt.Sprintf("`yaccgo generate %s` writes a different file than the generator called in-process with the same options: grammar [%s]: %s", strings.Join(flags[v], " "), c.Spec.Key(), firstDiff(lib, b)),
+							&c14Case{Origin: c.Name, Spec: c.Spec, Variant: v}, nil)
+						break
+					}
 				} else if h != first {
 					w.Violate("C14|native-cli|"+c.Spec.Key()+" / "+v, fmt.Sprintf("the native yaccgo binary writes different files for the same input on repeated runs: grammar [%s], options %v", c.Spec.Key(), flags[v]),
 						&c14Case{Origin: c.Name, Spec: c.Spec, Variant: v}, nil)
